@@ -17,6 +17,7 @@ OBLIGATIONS = [
     'C04.even_add_odd', 'C04.gi_even', 'C04.gi_odd', 'C04.even_as_coded', 'C04.odd_as_coded',
     'C04.mag2_diagonal', 'C04.normal_spec',
     'C04.reversion_in_storage_order', 'C04.grade_involution_in_storage_order', 'C04.grade_projection_in_storage_order',
+    'C04.grade_involution_is_mathlib_involute', 'C04.reversion_is_mathlib_reverse', 'C04.conjugation_is_mathlib',
 ]
 PENDING = []
 RULE = ("layouts: exhaustive small signatures, random up to n=8, custom ids/orders for the involutions; multivectors: integer and dyadic "
